@@ -177,7 +177,7 @@ func flagClass(f BalFlags) string {
 }
 
 func runC02(c *Ctx) {
-	n := c.N(1500, 40000)
+	n := c.N(5000, 40000)
 	cases := genBalCases(c, "balance", n, func(r *RNG) JGenOpts {
 		return JGenOpts{MaxAccounts: r.Range(2, 8), MaxDays: r.Range(1, 8), Unicode: true, BaseDay: 737000 + r.Intn(1500), SpanDays: Pick(r, []int{0, 5, 40, 100, 400, 800}), BoundaryDates: r.Chance(1, 8),
 			Mutate: r.Chance(1, 10), Accruals: r.Chance(1, 3), CaseVariants: true}
